@@ -85,19 +85,35 @@ class Env:
     def __init__(self):
         self.frag = {}     # variable -> fragment (string-valued variables)
         self.cls = {}      # variable -> taint class of its raw value
+        self.lists = set() # variables that collect the pieces of a page in a list (joined with '' in the end)
+        self.iters = {}    # variable -> classes of the items it yields (an iterable handed to a helper)
 
     def copy(self):
         e = Env()
         e.frag = dict(self.frag)
         e.cls = dict(self.cls)
+        e.lists = set(self.lists)
+        e.iters = dict(self.iters)
         return e
 
 
 class PageEval:
-    def __init__(self, funcs=None):
+    def __init__(self, funcs=None, consts=None):
         self.notes = []
         self.funcs = funcs or {}      # module-level helper functions that may build parts of a page
+        self.consts = consts or {}    # module-level names assigned exactly once (and never declared global): their value
         self.depth = 0
+        self.cdepth = 0
+
+    def const(self, name, what):
+        """fragment / class of a module-level constant, evaluated in an empty environment"""
+        if self.cdepth >= 6:
+            raise Unsupported('constant nesting at ' + name)
+        self.cdepth += 1
+        try:
+            return what(self.consts[name], Env())
+        finally:
+            self.cdepth -= 1
 
     def inline(self, fn, call, env):
         """a call of a module-level helper that returns page text: evaluate its body with the parameters bound
@@ -120,11 +136,19 @@ class PageEval:
             if prm in bound:
                 arg = bound[prm]
                 e2.cls[prm] = self.classify(arg, env)
+                if isinstance(arg, (ast.Call, ast.GeneratorExp, ast.Tuple, ast.List)) or \
+                        (isinstance(arg, ast.Name) and arg.id in env.iters):
+                    spec = self.iter_classes(arg, env)
+                    if isinstance(spec, list):
+                        e2.iters[prm] = spec          # an iterable of tuples handed on: its items keep their classes
                 if not (isinstance(arg, ast.Name) and arg.id in ('req', 'app') and prm == arg.id):
                     e2.frag[prm] = self.frag(arg, env)
             elif prm in defaults and isinstance(defaults[prm], ast.Constant):
                 e2.cls[prm] = 'trusted'
                 e2.frag[prm] = self.frag(defaults[prm], env)
+            elif prm in defaults and isinstance(defaults[prm], ast.Name) and defaults[prm].id in self.consts:
+                e2.cls[prm] = self.const(defaults[prm].id, self.classify)
+                e2.frag[prm] = self.const(defaults[prm].id, self.frag)
             else:
                 raise Unsupported('helper argument %s of %s' % (prm, fn.name))
         self.depth += 1
@@ -149,6 +173,8 @@ class PageEval:
                 return env.cls[node.id]
             if node.id in env.frag:
                 return self.frag_class(env.frag[node.id])
+            if node.id in self.consts and node.id not in env.cls:
+                return self.const(node.id, self.classify)
             return 'tainted'
         if isinstance(node, ast.Attribute):
             if node.attr in TRUSTED_ATTRS:
@@ -210,6 +236,10 @@ class PageEval:
             return [('lit', str(node.value))]
         if isinstance(node, ast.Name) and node.id in env.frag:
             return list(env.frag[node.id])
+        if isinstance(node, ast.Name) and node.id in self.consts and node.id not in env.cls:
+            return self.const(node.id, self.frag)
+        if isinstance(node, (ast.Tuple, ast.List)) and False:
+            pass
         if isinstance(node, ast.BinOp) and isinstance(node.op, ast.Add):
             return self.frag(node.left, env) + self.frag(node.right, env)
         if isinstance(node, ast.BinOp) and isinstance(node.op, ast.Mult):
@@ -252,6 +282,10 @@ class PageEval:
             if isinstance(node.func, ast.Attribute) and node.func.attr == 'join' \
                     and isinstance(node.func.value, ast.Constant) and len(node.args) == 1:
                 return self.join(node.func.value.value, node.args[0], env)
+            if isinstance(node.func, ast.Attribute) and node.func.attr == 'format':
+                got = self.str_format(node, env)
+                if got is not None:
+                    return got
         return [('hole', RAW_CLS[self.classify(node, env)], src(node))]
 
     def cond(self, test, a, b):
@@ -262,10 +296,39 @@ class PageEval:
             return ('ifdebug', [('alt', a, b)], b)
         return ('alt', a, b)
 
+    def joined_later(self, name, body):
+        """is the list variable used only through append/extend and ''.join(name) in this body (fails closed otherwise)"""
+        for st in body:
+            for n in ast.walk(st):
+                if isinstance(n, ast.Name) and n.id == name and isinstance(n.ctx, ast.Load):
+                    pass
+        uses = []
+        for st in body:
+            for n in ast.walk(st):
+                if isinstance(n, ast.Call) and isinstance(n.func, ast.Attribute):
+                    if isinstance(n.func.value, ast.Name) and n.func.value.id == name:
+                        uses.append(n.func.attr)
+                    if n.func.attr == 'join' and isinstance(n.func.value, ast.Constant) and n.func.value.value == '' \
+                            and len(n.args) == 1 and isinstance(n.args[0], ast.Name) and n.args[0].id == name:
+                        uses.append('joined')
+        loads = sum(1 for st in body for n in ast.walk(st)
+                    if isinstance(n, ast.Name) and n.id == name and isinstance(n.ctx, ast.Load))
+        return 'joined' in uses and all(u in ('append', 'extend', 'joined') for u in uses) and loads == len(uses)
+
     def join(self, sep, arg, env):
         gen = arg
+        if isinstance(gen, ast.Name) and gen.id in env.lists and sep == '':
+            return list(env.frag[gen.id])
         if isinstance(gen, ast.Call) and dotted(gen.func) in ('tuple', 'list') and gen.args:
             gen = gen.args[0]
+        if isinstance(gen, (ast.Tuple, ast.List)) and not any(isinstance(e, ast.Starred) for e in gen.elts):
+            # "sep".join((a, b, c)) with the items written out
+            out = []
+            for i, e in enumerate(gen.elts):
+                if i:
+                    out.append(('lit', sep))
+                out += self.frag(e, env)
+            return out
         if not isinstance(gen, (ast.GeneratorExp, ast.ListComp)) or len(gen.generators) != 1:
             return [('hole', RAW_CLS[self.classify(arg, env)], src(arg))]
         comp = gen.generators[0]
@@ -276,6 +339,63 @@ class PageEval:
             elt = [('alt', elt, [])]
         # "sep".join(e1..en) = '' | e (sep e)*
         return [('alt', [], elt + [('star', [('lit', sep)] + elt)])]
+
+    def str_format(self, node, env):
+        """`TEMPLATE.format(...)` for a template that is literal text: `{name}`, `{}`, `{0}`, with `!s` / numeric specs.
+        None when the form is not recognised (the caller then leaves a hole of the expression's class)."""
+        tpl = self.frag(node.func.value, env)
+        if not tpl or not all(n[0] == 'lit' for n in tpl):
+            return None
+        text = ''.join(n[1] for n in tpl)
+        kws = {kw.arg: kw.value for kw in node.keywords if kw.arg}
+        if any(kw.arg is None for kw in node.keywords):
+            return None
+        pos, star = [], None
+        for a in node.args:
+            if isinstance(a, ast.Starred):
+                if star is not None or pos:
+                    return None
+                star = a.value
+            else:
+                pos.append(a)
+        out, i, auto = [], 0, 0
+        for m in re.finditer(r'\{\{|\}\}|\{([^{}!:]*)(![sr])?(:[^{}]*)?\}|[{}]', text):
+            if m.start() > i:
+                out.append(('lit', text[i:m.start()]))
+            i = m.end()
+            tok = m.group(0)
+            if tok in ('{{', '}}'):
+                out.append(('lit', tok[0]))
+                continue
+            if tok in ('{', '}'):
+                return None
+            field, conv, spec = m.group(1), m.group(2), m.group(3)
+            if conv == '!r':
+                return None
+            numeric = bool(spec) and re.fullmatch(r':[<>^+\-0-9.,]*[dfeEgGxXob%]', spec) is not None
+            if spec and not numeric and spec != ':':
+                return None
+            if field == '' or field.isdigit():
+                idx = auto if field == '' else int(field)
+                auto += 1
+                if star is not None:
+                    cls = self.classify(star, env)
+                    out.append(('hole', 'trusted' if numeric else RAW_CLS[cls], '{%s} of %s' % (idx, src(star))))
+                    continue
+                if idx >= len(pos):
+                    return None
+                arg = pos[idx]
+            elif field in kws:
+                arg = kws[field]
+            else:
+                return None
+            if numeric:
+                out.append(('hole', 'trusted', 'format ' + spec + ' ' + src(arg)))
+            else:
+                out += self.frag(arg, env)
+        if i < len(text):
+            out.append(('lit', text[i:]))
+        return out
 
     def fmt(self, node, env):
         left = self.frag(node.left, env)
@@ -322,6 +442,15 @@ class PageEval:
 
     # ---- loop variable binding --------------------------------------------------------------
     def iter_classes(self, it, env):
+        if isinstance(it, ast.Name) and it.id in env.iters:
+            return env.iters[it.id]
+        if isinstance(it, ast.GeneratorExp) and len(it.generators) == 1 and not it.generators[0].ifs:
+            # (a, f(b)) for a, b in X: the classes of the tuple's items under the loop binding
+            e2 = env.copy()
+            self.bind_loop(it.generators[0].target, it.generators[0].iter, e2)
+            if isinstance(it.elt, ast.Tuple):
+                return [self.classify(e, e2) for e in it.elt.elts]
+            return self.classify(it.elt, e2)
         name = dotted(it.func) if isinstance(it, ast.Call) else None
         if name is not None:
             key = name[:-2] if name.endswith('()') else name
@@ -361,7 +490,16 @@ class PageEval:
             if isinstance(st, ast.Assign):
               for tgt in st.targets:
                 if isinstance(tgt, ast.Name):
-                    if isinstance(st.value, ast.Call) and dotted(st.value.func) == 'Response':
+                    if isinstance(st.value, ast.List) and not any(isinstance(e, ast.Starred) for e in st.value.elts) \
+                            and self.joined_later(tgt.id, body):
+                        # `parts = [a, b]` ... `parts.append(c)` ... `''.join(parts)`: the pieces in order
+                        fr, cls = [], 'trusted'
+                        for e in st.value.elts:
+                            fr += self.frag(e, env)
+                            cls = join(cls, self.classify(e, env))
+                        env.frag[tgt.id], env.cls[tgt.id] = fr, cls
+                        env.lists.add(tgt.id)
+                    elif isinstance(st.value, ast.Call) and dotted(st.value.func) == 'Response':
                         env.frag[tgt.id] = self.response_arg(st.value, env)
                         env.cls[tgt.id] = 'trusted'
                     else:
@@ -384,11 +522,31 @@ class PageEval:
                 fn = dotted(st.value.func)
                 if fn == 'res.write':
                     env.frag['res'] = env.frag['res'] + self.frag(st.value.args[0], env)
+                elif isinstance(st.value.func, ast.Attribute) and isinstance(st.value.func.value, ast.Name) \
+                        and st.value.func.value.id in env.lists:
+                    name, meth = st.value.func.value.id, st.value.func.attr
+                    if meth == 'append' and len(st.value.args) == 1 and not st.value.keywords:
+                        env.frag[name] = env.frag[name] + self.frag(st.value.args[0], env)
+                        env.cls[name] = join(env.cls.get(name, 'trusted'), self.classify(st.value.args[0], env))
+                    elif meth == 'extend' and len(st.value.args) == 1 and not st.value.keywords:
+                        env.frag[name] = env.frag[name] + self.join('', st.value.args[0], env)
+                        env.cls[name] = join(env.cls.get(name, 'trusted'), self.classify(st.value.args[0], env))
+                    else:
+                        raise Unsupported('list operation %s on %s' % (meth, name))
                 # logging and other calls do not build the page
             elif isinstance(st, ast.If):
                 e1, e2 = env.copy(), env.copy()
                 r1 = self.run(st.body, e1)
                 r2 = self.run(st.orelse, e2)
+                if r1 is not None and r2 is None and not st.orelse:
+                    # `if test: return A` - the rest of the body is the other branch
+                    rest = body[body.index(st) + 1:]
+                    r_rest = self.run(rest, env.copy())
+                    if r_rest is None:
+                        raise Unsupported('return inside if without a return after it')
+                    return [self.cond(st.test, r1, r_rest)]
+                if r1 is not None and r2 is not None:
+                    return [self.cond(st.test, r1, r2)]
                 if r1 is not None or r2 is not None:
                     raise Unsupported('return inside if')
                 for name in set(e1.frag) | set(e2.frag):
@@ -466,9 +624,28 @@ def extract(tree):
     """-> {page: fragment}"""
     out = {}
     funcs = {n.name: n for n in tree.body if isinstance(n, ast.FunctionDef)}
+    # module-level constants: a name bound exactly once in the whole module (no second assignment anywhere, no `global`)
+    bound = {}
+    for n in ast.walk(tree):
+        if isinstance(n, ast.Global):
+            for g in n.names:
+                bound[g] = bound.get(g, 0) + 2
+        elif isinstance(n, (ast.Assign, ast.AnnAssign, ast.AugAssign, ast.For, ast.NamedExpr, ast.With, ast.Import, ast.ImportFrom)):
+            for ch in ast.walk(n):
+                if isinstance(ch, ast.Name) and isinstance(ch.ctx, ast.Store):
+                    bound[ch.id] = bound.get(ch.id, 0) + 1
+    consts = {}
+    for n in tree.body:
+        tgt, val = None, None
+        if isinstance(n, ast.Assign) and len(n.targets) == 1 and isinstance(n.targets[0], ast.Name):
+            tgt, val = n.targets[0].id, n.value
+        elif isinstance(n, ast.AnnAssign) and isinstance(n.target, ast.Name) and n.value is not None:
+            tgt, val = n.target.id, n.value
+        if tgt and bound.get(tgt) == 1 and tgt not in funcs:
+            consts[tgt] = val
     for name in PAGES:
         fn = funcs[name]
-        ev = PageEval({k: v for k, v in funcs.items() if k not in NOT_HELPERS})
+        ev = PageEval({k: v for k, v in funcs.items() if k not in NOT_HELPERS}, consts)
         env = Env()
         for a in fn.args.args:
             env.cls[a.arg] = 'trusted' if a.arg in ('req', 'app', 'code') else 'tainted'
